@@ -18,9 +18,10 @@ action about to be taken, the set of allowed reactions:
 
 The observed reaction must be in the set; the machine then follows the branch
 that was observed.  A connection error ends a branch.  A refused local action
-ends a branch too, after one probe: the library closes a stream on which it
-refused an action, so whether the stream is still usable afterwards is reported
-under a single mechanism key rather than explored further.
+sends nothing, so the model stays where it is and the sequence goes on (one
+refusal per sequence, among its first 2 (quick) / 3 (thorough) symbols, to bound
+the tree); a probe right after the refusal checks that an action the state
+permits still works.
 
 Beyond the exhaustive depth, random walks of up to 14 symbols are judged the
 same way (thorough tier: more of them).
